@@ -1,9 +1,116 @@
 import OdcGeo.Model.C02
 namespace OdcGeo.C02.Drv
-open OdcGeo OdcGeo.IO
+open OdcGeo OdcGeo.IO OdcGeo.C02 OdcGeo.C17
 
+/-
+Line protocol (after the `c02` tag):  `<op> <ny> <nx> <a;b;c;d;e;f> <crs> args…`
+A geobox is printed as `ny nx a;b;c;d;e;f crs`.
+-/
+
+/-- `i:<int>` or `s:<a>:<b>` with `N` for None -/
+def parsePIdx? (s : String) : Option PIdx :=
+  match s.splitOn ":" with
+  | ["i", k] => (parseInt? k).map PIdx.idx
+  | ["s", a, b] =>
+    match parseOpt? parseInt? a, parseOpt? parseInt? b with
+    | some a, some b => some (.slc a b)
+    | _, _ => none
+  | _ => none
+
+def parseGB? (ny nx aff crs : String) : Option GeoBox := do
+  let ny ← parseInt? ny; let nx ← parseInt? nx
+  let A ← parseAff? aff; let crs ← parseNat? crs
+  pure ⟨ny, nx, A, crs⟩
+
+def fmtGB (g : GeoBox) : String := s!"{g.ny} {g.nx} {fmtAff g.A} {g.crs}"
+def fmtPt (p : Pt) : String := s!"{fmtRat p.1} {fmtRat p.2}"
+def fmtPtS (p : Pt) : String := s!"{fmtRat p.1};{fmtRat p.2}"
+
+def runOp (op : String) (g : GeoBox) (args : List String) : Option String :=
+  match op, args with
+  | "p2w", [x, y] => do
+    let x ← parseRat? x; let y ← parseRat? y
+    pure (fmtPt (pix2wld g (x, y)))
+  | "w2p", [x, y] => do
+    let x ← parseRat? x; let y ← parseRat? y
+    pure (fmtRes fmtPt (wld2pix g (x, y)))
+  | "extent", [] => pure (fmtList fmtPtS (extent g))
+  | "bbox", [] =>
+    let b := boundingbox g
+    pure s!"{fmtRat b.left} {fmtRat b.bottom} {fmtRat b.right} {fmtRat b.top}"
+  | "coords", [] =>
+    pure (fmtRes (fun (ys, xs) => s!"{fmtList fmtRat ys} {fmtList fmtRat xs}") (coordinates g))
+  | "res", [n, m] => do
+    let n ← parseRat? n; let m ← parseRat? m
+    pure (fmtRes fmtPt (resolution g n m))
+  | "crop1", [s] => do
+    let s ← parsePIdx? s
+    pure (fmtGB (crop g (.one s)))
+  | "crop2", [sy, sx] => do
+    let sy ← parsePIdx? sy; let sx ← parsePIdx? sx
+    pure (fmtGB (crop g (.two sy sx)))
+  | "pad", [px, py] => do
+    let px ← parseInt? px; let py ← parseOpt? parseInt? py
+    pure (fmtGB (pad g px py))
+  | "padwh", [ax, ay] => do
+    let ax ← parseInt? ax; let ay ← parseOpt? parseInt? ay
+    pure (fmtRes fmtGB (padWh g ax ay))
+  | "resize", [ny, nx] => do
+    let ny ← parseInt? ny; let nx ← parseInt? nx
+    pure (fmtGB (resize g ny nx))
+  | "tpix", [tx, ty] => do
+    let tx ← parseRat? tx; let ty ← parseRat? ty
+    pure (fmtGB (translatePix g tx ty))
+  | "left", [] => pure (fmtGB (left g))
+  | "right", [] => pure (fmtGB (right g))
+  | "top", [] => pure (fmtGB (top g))
+  | "bottom", [] => pure (fmtGB (bottom g))
+  | "flipx", [] => pure (fmtGB (flipx g))
+  | "flipy", [] => pure (fmtGB (flipy g))
+  | "rot", [c, s] => do
+    let c ← parseRat? c; let s ← parseRat? s
+    pure (fmtGB (rotate g c s))
+  | "cpix", [] => pure (fmtGB (centerPixel g))
+  | "mul", [t] => do
+    let t ← parseAff? t
+    pure (fmtGB (mulPix g t))
+  | "rmul", [t] => do
+    let t ← parseAff? t
+    pure (fmtGB (mulWld t g))
+  | "zout", [f] => do
+    let f ← parseRat? f
+    pure (fmtRes fmtGB (zoomOut g f))
+  | "ztos", [ny, nx] => do
+    let ny ← parseInt? ny; let nx ← parseInt? nx
+    pure (fmtRes fmtGB (zoomToShape g ny nx))
+  | "zton", [n] => do
+    let n ← parseRat? n
+    pure (fmtRes fmtGB (zoomToNum g n))
+  | "ztor", [rx, ry] => do
+    let rx ← parseRat? rx; let ry ← parseRat? ry
+    pure (fmtRes fmtGB (zoomToRes g rx ry))
+  | "sdown", [k] => do
+    let k ← parseInt? k
+    pure (fmtRes fmtGB (scaledDown g k))
+  | "buf", [n, m, xb, yb] => do
+    let n ← parseRat? n; let m ← parseRat? m
+    let xb ← parseRat? xb; let yb ← parseOpt? parseRat? yb
+    pure (fmtRes fmtGB (buffered g n m xb yb))
+  | _, _ => none
+
+/-- keep only the shape (`ny nx`) of a printed geobox; errors pass through -/
+def shapeOnly (out : String) : String :=
+  match out.splitOn " " with
+  | ny :: nx :: _ :: _ => s!"{ny} {nx}"
+  | _ => out
+
+/-- `S:<op>` prints only the shape of the result (used where the affine of the real code
+is not exactly representable but the shape law is decided exactly). -/
 def run (args : List String) : Option String :=
   match args with
+  | op :: ny :: nx :: aff :: crs :: rest => do
+    let g ← parseGB? ny nx aff crs
+    if op.startsWith "S:" then (runOp (op.drop 2).toString g rest).map shapeOnly else runOp op g rest
   | _ => none
 
 end OdcGeo.C02.Drv
